@@ -2,7 +2,7 @@
 From Coq Require Import NArith List Bool Sorting.Permutation Sorting.Sorted.
 From DV Require Import Base.Outcome Base.Bytes Base.Lex Base.Names C11.Sha C17.Model
   C12.Gen C12.Model C12.Digest C12.Spec C12.ProofsSort C12.ProofsSigned C12.ProofsInj
-  C12.ProofsKey C12.ProofsCrypto C12.KeyModel C12.ProofsRsa C12.ZoneModel C12.ProofsZone C12.ProofsC04 C12.ProofsC05.
+  C12.ProofsKey C12.ProofsCrypto C12.KeyModel C12.ProofsRsa C12.ZoneModel C12.ProofsZone C12.ProofsC04 C12.ProofsC05 C12.ProofsZoneSorted.
 Import ListNotations.
 Local Open Scope N_scope.
 
@@ -59,6 +59,14 @@ Theorem C12_signer_total : forall k o t c ttl rrset inc exp,
   end.
 Proof. exact signer_total. Qed.
 Print Assumptions C12_signer_total.
+
+Theorem C12_signer_period_is_rfc1982 : forall k o t c ttl rrset inc exp,
+  valid_abs o -> uniform o t c ttl rrset -> rrset <> [] -> t <> 46 ->
+  inc < 4294967296 -> exp < 4294967296 ->
+  (sign_rrset k rrset inc exp = Err 2 <-> rfc_lt exp inc) /\
+  ((exists r, sign_rrset k rrset inc exp = Ok r) <-> ~ rfc_lt exp inc).
+Proof. exact signer_period_is_rfc1982. Qed.
+Print Assumptions C12_signer_period_is_rfc1982.
 
 Theorem C12_labels_field_is_rfc4034_3_1_3 : forall owner, valid_abs owner ->
   rrsig_label_count owner = rfc_labels owner /\ rfc_labels owner <= N.of_nat (length owner).
@@ -250,3 +258,20 @@ Theorem C12_typed_validator_rebuilds_signer_input : forall k o t c ttl rrset inc
   forall seen, typed_resolver_view o t c rrset seen -> signed_data s (map t_to_rr seen) = scratch.
 Proof. exact typed_validator_rebuilds_signer_input. Qed.
 Print Assumptions C12_typed_validator_rebuilds_signer_input.
+
+Theorem C12_sign_zone_is_rfc4035 : forall apex k recs,
+  StronglySorted (fun a b : zrec => name_cmp (fst a) (fst b) <> Gt) recs ->
+  sign_zone apex k recs = spec_zone apex k recs.
+Proof. exact sign_zone_is_rfc4035. Qed.
+Print Assumptions C12_sign_zone_is_rfc4035.
+
+Theorem C12_zone_signing_from_any_records : forall apex k (l : list C13.Model.srec),
+  sign_zone apex k (C13.Model.strip (C13.Model.sorted_records l)) =
+  spec_zone apex k (C13.Model.strip (C13.Model.sorted_records l)).
+Proof. exact zone_signing_from_any_records. Qed.
+Print Assumptions C12_zone_signing_from_any_records.
+
+Theorem C12_every_key_signs_every_selected_rrset : forall apex k gs cut,
+  sign_groups apex k cut gs = flat_map (fun x => repeat x k) (sign_groups apex 1 cut gs).
+Proof. exact sign_groups_per_key. Qed.
+Print Assumptions C12_every_key_signs_every_selected_rrset.
